@@ -19,7 +19,8 @@ def handlers : List (String × (String → Json → Except String Json)) := [
   ("wind", Aeic.Wind.handle),
   ("c02", Aeic.Builder.handleC02),
   ("c17", Aeic.Builder.handleC17),
-  ("c06", Aeic.PerfTable.handle)
+  ("c06", Aeic.PerfTable.handle),
+  ("kern", Aeic.Kern.handle)
 ]
 
 def dispatch (op : String) (j : Json) : Except String Json :=
